@@ -3,7 +3,7 @@ from vflib import oschecks
 
 
 def run(tier, only=None):
-    pages = [8] if tier == "quick" else [8, 16, 5]
+    pages = [8] if tier == "quick" else [8, 5, 4]    # (page size 16 exceeds 14 GB in the propositional reduction)
     q = []
     for p in pages:
         q.append({"name": "c19.file.p%d" % p, "cfile": "glue_c19.c", "mem_buffer": None, "stubs": False, "replace": oschecks.REC,
